@@ -140,8 +140,8 @@ class QTensorLinear(torch.autograd.Function):
             other_gO = torch.matmul(gO.reshape(-1, out_features).t(), input.reshape(-1, in_features))
         if ctx.needs_input_grad[2]:
             # Bias gradient is the sum on all dimensions but the last one
-            dim = tuple(range(gO.ndim - 1))
-            bias_gO = gO.sum(dim)
+            # (a single vector of activations has no such dimension: an empty tuple would sum over ALL dimensions)
+            bias_gO = gO.reshape(-1, out_features).sum(0)
         return input_gO, other_gO, bias_gO
 
 
